@@ -15,18 +15,35 @@ extern crate alloc;
 pub mod nd;
 #[macro_use]
 pub mod env;
+pub mod secp_model;
 
+pub mod c01;
 pub mod c04;
 pub mod c05;
 pub mod c07a;
+pub mod c07b;
+pub mod c10;
 pub mod c11;
+pub mod c12;
+pub mod c13;
+pub mod c14;
+pub mod c16;
+pub mod c19;
 
 /// name -> harness function, used by bin/replay
 pub fn registry() -> Vec<(&'static str, fn())> {
 	let mut v: Vec<(&'static str, fn())> = vec![];
 	v.extend_from_slice(c07a::HARNESSES);
+	v.extend_from_slice(c07b::HARNESSES);
 	v.extend_from_slice(c05::HARNESSES);
 	v.extend_from_slice(c04::HARNESSES);
 	v.extend_from_slice(c11::HARNESSES);
+	v.extend_from_slice(c01::HARNESSES);
+	v.extend_from_slice(c10::HARNESSES);
+	v.extend_from_slice(c12::HARNESSES);
+	v.extend_from_slice(c13::HARNESSES);
+	v.extend_from_slice(c14::HARNESSES);
+	v.extend_from_slice(c16::HARNESSES);
+	v.extend_from_slice(c19::HARNESSES);
 	v
 }
